@@ -18,8 +18,8 @@ G == INSTANCE CGGraph
 F == INSTANCE FragText
 
 Traces == JsonDeserialize(IOEnv.TRACE_FILE)
-VARIABLES tid, done
-vars == <<tid, done>>
+VARIABLES tid, done, cfg
+vars == <<tid, done, cfg>>
 T == Traces[tid]
 
 HasBaseTokens == T.basekind = "tokens"
@@ -65,10 +65,18 @@ C10_SharedBelongsToBoth ==
 
 HasRef == "ref" \in DOMAIN T
 
+(* ---------------- C11: the twin configuration without virtual nodes / zero-order edges ---------------- *)
+HasTwin == "twin" \in DOMAIN T
+Core(n) == <<n.id, n.el, n.name_el, n.chg, n.isH, IF T.allAtom THEN "" ELSE n.name>>
+C11_SameMolecule ==
+  /\ T.twin.outcome = "ok"
+  /\ {Core(n) : n \in FNodes(O)} = {Core(n) : n \in ToSet(T.twin.fine.nodes)}
+  /\ {<<e[1], e[2], e[3]>> : e \in FEdges(O)} = {<<e[1], e[2], e[3]>> : e \in ToSet(T.twin.fine.edges)}
+
 Verdict ==
-  IF ~InDomain THEN [dom |-> FALSE]
+  IF cfg = <<>> THEN [dom |-> FALSE]
   ELSE
-    LET C == Cfg
+    LET C == cfg
         exp == ExpectedOutcome(C)
         ok == O.outcome = "ok"
     IN IF exp # "ok" \/ ~ok
@@ -92,7 +100,7 @@ Verdict ==
            C03_Across |-> C03_Across(C, O),
            C03_NoBareBond |-> C03_NoBareBond(C, O),
            C03_CountLE |-> NoWideSharing(O) => C03_CountLE(C, O),
-           C03_CountEQ |-> (Dedicated(C) /\ NoWideSharing(O)) => C03_CountEQ(C, O),
+           C03_CountEQ |-> (Dedicated(C) /\ NoSharing(O)) => C03_CountEQ(C, O),
            C03_Carried |-> C03_Carried(C, O),
            C03_Compatible |-> C03_Carried(C, O) => C03_Compatible(C, O),
            C03_Order |-> C03_Carried(C, O) => C03_Order(C, O),
@@ -108,11 +116,14 @@ Verdict ==
            C12_Keys |-> C12_Keys(C, O),
            C12_Contiguous |-> C12_Contiguous(C, O),
            C12_AtomNames |-> C12_AtomNames(C, O),
+           C11_SameMolecule |-> HasTwin => C11_SameMolecule,
            C01_Original |-> HasRef => C01_Original,
            C10_SharedBelongsToBoth |-> HasRef => C10_SharedBelongsToBoth ]
 
-Init == tid \in 1..Len(Traces) /\ done = FALSE
-Next == /\ done = FALSE /\ done' = TRUE /\ tid' = tid
+(* the configuration is derived once per trace (a state variable, so it is a value, not re-evaluated) *)
+Init == /\ tid \in 1..Len(Traces) /\ done = FALSE
+        /\ cfg = IF InDomain THEN Cfg ELSE <<>>
+Next == /\ done = FALSE /\ done' = TRUE /\ tid' = tid /\ cfg' = cfg
         /\ PrintT(<<"V", tid, ToJson(Verdict)>>)
 Spec == Init /\ [][Next]_vars
 =============================================================================
